@@ -12,6 +12,12 @@ any length, shapes of any rank and extent. -/
 namespace GeffProps.C11
 open Geff.Np Geff.Vlen
 
+/-! ## vocabulary (defined in `GeffModel/Np.lean`, `GeffProofs/Vlen.lean`; restated definitionally) -/
+
+example (a : NdArr) : a.WF ↔ a.flat.length = prod a.shape := Iff.rfl
+example (es : List NdArr) :
+    Homogeneous es ↔ ∀ a ∈ es, ∀ b ∈ es, a.dtype = b.dtype ∧ a.ndim = b.ndim := Iff.rfl
+
 /-! ## encode / decode -/
 
 /-- **C11 (round trip).**  Whenever `serialize_vlen_property_data` accepts an object array of
@@ -107,6 +113,30 @@ theorem C11_decodeRow_iff (dt : Dtype) (data : List Val) (off : Nat) (sh : List 
   by_cases h : min (prod sh) (data.length - off) = prod sh
   · left; simp only [h, ↓reduceIte, true_and]; omega
   · right; simp only [h, ↓reduceIte, true_and]; omega
+
+/-- … and on a whole table: the decoder returns one array per row when every row is in bounds, and
+raises `ValueError` otherwise (no other exception). -/
+theorem C11_decodeRows_iff (dt : Dtype) (data : List Val) (rows : List (Nat × List Nat)) :
+    (decodeRows dt data rows = .ok (rows.map fun r =>
+        { dtype := dt, shape := r.2, flat := (data.drop r.1).take (prod r.2) }) ∧
+      ∀ r ∈ rows, prod r.2 = 0 ∨ r.1 + prod r.2 ≤ data.length) ∨
+    (decodeRows dt data rows = .valueError ∧ ∃ r ∈ rows, ¬ (prod r.2 = 0 ∨ r.1 + prod r.2 ≤ data.length)) := by
+  induction rows with
+  | nil => left; simp [decodeRows]
+  | cons r rest ih =>
+    obtain ⟨off, sh⟩ := r
+    rcases C11_decodeRow_iff dt data off sh with ⟨h1, h2⟩ | ⟨h1, h2⟩
+    · rcases ih with ⟨i1, i2⟩ | ⟨i1, r', hr', i2⟩
+      · left
+        refine ⟨by simp only [decodeRows, h1, i1, List.map_cons], ?_⟩
+        intro r hr
+        rcases List.mem_cons.1 hr with rfl | hr
+        · exact h2
+        · exact i2 r hr
+      · right
+        exact ⟨by simp only [decodeRows, h1, i1], r', List.mem_cons_of_mem _ hr', i2⟩
+    · right
+      exact ⟨by simp only [decodeRows, h1], (off, sh), by simp, h2⟩
 
 /-! ## normalisation of ragged input -/
 
